@@ -91,15 +91,15 @@ theorem decision_core (d half q0 r ρ : Nat) (hρ : ρ < d) :
     rw [Nat.mul_add, Nat.mul_one] at this
     constructor <;> constructor <;> intro <;> omega
 
-theorem double_succ_div (m P : Nat) (hP : 0 < P) : (2 * m + 1) / (2 * P) = m / P := by
+theorem double_succ_div (m P : Nat) : (2 * m + 1) / (2 * P) = m / P := by
   rw [← Nat.div_div_eq_div_mul]
   have : (2 * m + 1) / 2 = m := by omega
   rw [this]
 
-theorem double_succ_mod (m P : Nat) (hP : 0 < P) : (2 * m + 1) % (2 * P) = 2 * (m % P) + 1 := by
+theorem double_succ_mod (m P : Nat) : (2 * m + 1) % (2 * P) = 2 * (m % P) + 1 := by
   have h1 := Nat.div_add_mod (2 * m + 1) (2 * P)
   have h2 := Nat.div_add_mod m P
-  rw [double_succ_div m P hP] at h1
+  rw [double_succ_div m P] at h1
   have : 2 * P * (m / P) = 2 * (P * (m / P)) := by grind
   omega
 
@@ -184,7 +184,7 @@ theorem roundPack_div (neg : Bool) (T d : Nat) (e : Int) (hd : 0 < d) (hb : 2 ^ 
     congr 2
     unfold rneShift
     have hs2 : s' + 3 - 1 = s' + 2 := by omega
-    rw [hs2, hP3, double_succ_div _ _ (Nat.two_pow_pos _), double_succ_mod _ _ (Nat.two_pow_pos _)]
+    rw [hs2, hP3, double_succ_div, double_succ_mod]
     apply ite_congr (propext _) (fun _ => rfl) (fun _ => rfl)
     simp only [Bool.or_eq_true, Bool.and_eq_true, decide_eq_true_eq, beq_iff_eq]
     rw [hdec.1, hdec.2]
@@ -198,5 +198,130 @@ theorem roundPack_div (neg : Bool) (T d : Nat) (e : Int) (hd : 0 < d) (hb : 2 ^ 
       · exact Or.inl (by omega)
       · exact Or.inl (by omega)
       · omega
+
+/-! ## the rounding does not depend on the scaling -/
+
+/-- `rq` with working exponent and shift named -/
+def rqAt (T d : Nat) (fe : Int) (s : Nat) : Nat :=
+  pack fe (if T > d * 2 ^ (s - 1) * (2 * (T / (d * 2 ^ s)) + 1) ∨
+      (T = d * 2 ^ (s - 1) * (2 * (T / (d * 2 ^ s)) + 1) ∧ T / (d * 2 ^ s) % 2 = 1)
+    then T / (d * 2 ^ s) + 1 else T / (d * 2 ^ s))
+
+theorem rq_eq_rqAt (T d : Nat) (e fe : Int)
+    (hfe : fe = if e + (bitLen (T / d) : Int) - 24 < -149 then -149 else e + (bitLen (T / d) : Int) - 24) :
+    rq T d e = rqAt T d fe (fe - e).toNat := by
+  unfold rq rqAt
+  simp only [← hfe]
+  rfl
+
+theorem rqAt_mul (T d c : Nat) (fe : Int) (s : Nat) (hc : 0 < c) :
+    rqAt (T * c) (d * c) fe s = rqAt T d fe s := by
+  unfold rqAt
+  have e1 : d * c * 2 ^ s = d * 2 ^ s * c := by grind
+  rw [e1, Nat.mul_div_mul_right _ _ hc]
+  generalize T / (d * 2 ^ s) = q0
+  have e2 : d * c * 2 ^ (s - 1) * (2 * q0 + 1) = d * 2 ^ (s - 1) * (2 * q0 + 1) * c := by grind
+  rw [e2]
+  congr 1
+  apply ite_congr (propext _) (fun _ => rfl) (fun _ => rfl)
+  rw [gt_iff_lt, Nat.mul_lt_mul_right hc, Nat.mul_right_cancel_iff hc]
+
+theorem rqAt_scale (T d j : Nat) (fe : Int) (s : Nat) (hs : 1 ≤ s) :
+    rqAt (T * 2 ^ j) d fe (s + j) = rqAt T d fe s := by
+  have hj := Nat.two_pow_pos j
+  unfold rqAt
+  have e1 : d * 2 ^ (s + j) = d * 2 ^ s * 2 ^ j := by rw [Nat.pow_add]; grind
+  rw [e1, Nat.mul_div_mul_right _ _ hj]
+  generalize T / (d * 2 ^ s) = q0
+  have e0 : s + j - 1 = (s - 1) + j := by omega
+  have e2 : d * 2 ^ (s + j - 1) * (2 * q0 + 1) = d * 2 ^ (s - 1) * (2 * q0 + 1) * 2 ^ j := by
+    rw [e0, Nat.pow_add]; grind
+  rw [e2]
+  congr 1
+  apply ite_congr (propext _) (fun _ => rfl) (fun _ => rfl)
+  rw [gt_iff_lt, Nat.mul_lt_mul_right hj, Nat.mul_right_cancel_iff hj]
+
+/-- common factor in numerator and denominator -/
+theorem rq_cancel (T d c : Nat) (e : Int) (hc : 0 < c) : rq (T * c) (d * c) e = rq T d e := by
+  rw [rq_eq_rqAt (T * c) (d * c) e _ rfl, rq_eq_rqAt T d e _ rfl, Nat.mul_div_mul_right _ _ hc, rqAt_mul _ _ _ _ _ hc]
+
+/-- numerator scaled by `2^j`, exponent lowered by `j` -/
+theorem rq_scale (T d j : Nat) (e : Int) (hd : 0 < d) (hb : 2 ^ 25 ≤ T / d) :
+    rq (T * 2 ^ j) d (e - j) = rq T d e := by
+  have hL : 26 ≤ bitLen (T / d) := bitLen_ge hb
+  have h1 : 1 ≤ T / d := by have : 0 < 2 ^ 25 := Nat.two_pow_pos _; omega
+  have hbl := bitLen_div_scale T d j hd h1
+  generalize hfe : (if e + (bitLen (T / d) : Int) - 24 < -149 then (-149 : Int)
+    else e + (bitLen (T / d) : Int) - 24) = fe
+  have hfe2 : e + 2 ≤ fe := by rw [← hfe]; split <;> omega
+  have hfe' : fe = if e - j + (bitLen (T * 2 ^ j / d) : Int) - 24 < -149 then -149
+      else e - j + (bitLen (T * 2 ^ j / d) : Int) - 24 := by
+    rw [hbl, ← hfe]; push_cast; split <;> split <;> omega
+  rw [rq_eq_rqAt (T * 2 ^ j) d (e - j) fe hfe', rq_eq_rqAt T d e fe hfe.symm]
+  have hs : (fe - (e - j)).toNat = (fe - e).toNat + j := by omega
+  rw [hs, rqAt_scale _ _ _ _ _ (by omega)]
+
+/-! ## division of two integers -/
+
+/-- **float32 division of integers is correctly rounded**: for `0 < u, d < 2^24`, `float32(u) / float32(d)`
+    (`Num.div`: 27-bit pre-scaling, sticky bit) is the float32 nearest to the rational `u/d`
+    (`F32.ofRatio`: another pre-scaling) -/
+theorem ofInt_div_eq_ofRatio (u d : Nat) (hu0 : 0 < u) (hu : u < 16777216) (hd0 : 0 < d) (hd : d < 16777216) :
+    F32.ofInt (u : Int) / F32.ofInt (d : Int) = F32.ofRatio false u d := by
+  obtain ⟨ku, hku, hu1, hu2, _, hunp⟩ := ofInt_small (u : Int) (by omega) (by simpa using hu)
+  obtain ⟨kd, hkd, hd1, hd2, _, hdnp⟩ := ofInt_small (d : Int) (by omega) (by simpa using hd)
+  simp only [Int.natAbs_natCast] at hu1 hu2 hd1 hd2 hunp hdnp
+  have hnu : decide ((u : Int) < 0) = false := by simp
+  have hnd : decide ((d : Int) < 0) = false := by simp
+  rw [hnu] at hunp
+  rw [hnd] at hdnp
+  have blu : bitLen (u * 2 ^ ku) = 24 := bitLen_eq (k := 23) hu1 hu2
+  have bld : bitLen (d * 2 ^ kd) = 24 := bitLen_eq (k := 23) hd1 hd2
+  have blu' : bitLen u = 24 - ku := by have := bitLen_mul_pow u ku hu0; omega
+  have bld' : bitLen d = 24 - kd := by have := bitLen_mul_pow d kd hd0; omega
+  have hpd := Nat.two_pow_pos kd
+  -- the common unscaled numerator
+  obtain ⟨a, ha⟩ : ∃ a, a + kd = ku + 27 := ⟨ku + 27 - kd, by omega⟩
+  have c27 : (2 : Nat) ^ 27 = 134217728 := by decide
+  have hnum : u * 2 ^ ku * 2 ^ 27 = u * 2 ^ a * 2 ^ kd := by
+    rw [Nat.mul_assoc, Nat.mul_assoc, ← Nat.pow_add, ← Nat.pow_add, ha]
+  -- the quotient has at least 26 bits
+  have hq : 2 ^ 25 ≤ u * 2 ^ a * 2 ^ kd / (d * 2 ^ kd) := by
+    apply (Nat.le_div_iff_mul_le (by omega)).2
+    rw [← hnum, c27]
+    have : (2 : Nat) ^ 25 = 33554432 := by decide
+    omega
+  have hq' : 2 ^ 25 ≤ u * 2 ^ a / d := by
+    rwa [Nat.mul_div_mul_right _ _ hpd] at hq
+  -- model side
+  have hdiv : Num.div .f32 (F32.ofInt (u : Int)).nb (F32.ofInt (d : Int)).nb =
+      withSign .f32 false (rq (u * 2 ^ a) d (-(a : Int))) := by
+    rw [div_fin_fin .f32 _ _ _ _ _ _ _ _ hunp hdnp (by omega) (by omega), blu, bld, prec_f32]
+    have hK : 24 + 3 + 24 - 24 = 27 := rfl
+    rw [hK, hnum]
+    have he : -(ku : Int) - -(kd : Int) - ((27 : Nat) : Int) = -(a : Int) := by omega
+    rw [he]
+    have : (false != false) = false := rfl
+    rw [this, roundPack_div false _ _ _ (by omega) hq, rq_cancel _ _ _ _ hpd]
+  -- spec side
+  have hrat : F32.ofRatio false u d = F32.ofNatBits (withSign .f32 false (rq (u * 2 ^ a) d (-(a : Int)))) := by
+    unfold F32.ofRatio
+    have hbeq : (u == 0) = false := by simp; omega
+    have hK : 40 + bitLen d - bitLen u = a + 13 := by rw [blu', bld']; omega
+    simp only [hbeq, Bool.false_eq_true, if_false, hK]
+    have hnum' : u * 2 ^ (a + 13) = u * 2 ^ a * 2 ^ 13 := by rw [Nat.pow_add, Nat.mul_assoc]
+    rw [hnum']
+    have hq2 : 2 ^ 25 ≤ u * 2 ^ a * 2 ^ 13 / d := by
+      apply (Nat.le_div_iff_mul_le hd0).2
+      have h1 := (Nat.le_div_iff_mul_le hd0).1 hq'
+      have : u * 2 ^ a ≤ u * 2 ^ a * 2 ^ 13 := Nat.le_mul_of_pos_right _ (Nat.two_pow_pos 13)
+      omega
+    rw [roundPack_div false _ _ _ hd0 hq2]
+    have he : -((a + 13 : Nat) : Int) = -(a : Int) - ((13 : Nat) : Int) := by omega
+    rw [he, rq_scale _ _ _ _ hd0 hq']
+  rw [hrat]
+  show F32.div _ _ = _
+  unfold F32.div
+  rw [hdiv]
 
 end Ivg.SpecL
